@@ -165,6 +165,7 @@ class TDevice(Device):
       't_init': self.t_init,
       't_optimal': self.t_optimal,
       't_range': self.t_range,
-      't_external': self.t_external
+      't_external': self.t_external,
+      'c': self.c
     })
     return data
